@@ -107,7 +107,14 @@ def c09_2(ctx):
         if len(cands) == 1:
             var = next(iter(cands))
     if var is None:
-        raise AnalysisError("decode_bech32: program length variable not found")
+        # the length test is also decided by evaluation over every program length 0..42 (C09.14); the interval rule is the fallback
+        cells = c09_14(ctx)
+        if any(r.status == "error" for r in cells):
+            raise AnalysisError("decode_bech32: program length variable not found")
+        verdict = [r for r in cells if r.key == "bech32-cells:decode"] if hasattr(cells[0], "key") else cells[:1]
+        if all(r.status == "ok" for r in verdict):
+            return out + [ctx.ok(spec, "program length 2..40 decided by the length cells of C09.14 (no single length variable in this spelling)", fn, mod, key="accept:length")]
+        return out + [ctx.bad(spec, "program-length acceptance differs from 2..40 (see C09.14)", fn, mod, key="accept:length")]
     out += rl.accept_set(ctx, spec, [var], ISet.range(2, 40), targets="returns", prefer=(1, 41), what="witness program length " + var)
     return out
 
@@ -690,7 +697,149 @@ def c09_13(ctx):
     return shared_obligations(ctx, ["helper", "bech32", "script", "pecc", "tx"], "the result would depend on something other than the arguments and the object's current state")
 
 
+def _ref_bech32(hrp, version, prog):
+    """BIP173/BIP350 reference encoder (the rule's own)."""
+    def polymod(values):
+        chk = 1
+        for v in values:
+            b = chk >> 25
+            chk = (chk & 0x1FFFFFF) << 5 ^ v
+            for i in range(5):
+                chk ^= BECH32_GEN[i] if ((b >> i) & 1) else 0
+        return chk
+    acc, bits, data = 0, 0, [version]
+    for byte in prog:
+        acc = (acc << 8) | byte
+        bits += 8
+        while bits >= 5:
+            bits -= 5
+            data.append((acc >> bits) & 31)
+    if bits:
+        data.append((acc << (5 - bits)) & 31)
+    exp = [ord(x) >> 5 for x in hrp] + [0] + [ord(x) & 31 for x in hrp]
+    const = 1 if version == 0 else BECH32M_CONST
+    pm = polymod(exp + data + [0] * 6) ^ const
+    return hrp + "1" + "".join(BECH32_ALPHABET[d] for d in data + [(pm >> 5 * (5 - i)) & 31 for i in range(6)])
+
+
+def c09_14(ctx):
+    if not hasattr(ctx, "_c09_14"):
+        ctx._c09_14 = _c09_14(ctx)
+    return ctx._c09_14
+
+
+def _c09_14(ctx):
+    """decode_bech32 / encode_bech32_checksum evaluated over the complete partition the property quantifies over: every witness version 0..16 ×
+    every program length 0..42 × every human-readable part, three byte patterns each (the codec touches program bytes only through shifts
+    and masks).  Addresses the BIP173/BIP350 reference encoder produces for program lengths 2..40 decode to exactly (network, version,
+    program), lengths outside are refused, and the encoder produces the reference string"""
+    from sa.cells import Evaluator, Raised, Undecided
+    spec_d, spec_e = "bech32:decode_bech32", "bech32:encode_bech32_checksum"
+    mod, fn = rl.get(ctx, spec_d)
+    mod_e, fn_e = rl.get(ctx, spec_e)
+    out = []
+    bad_d = bad_e = None
+    n = 0
+    nets = {"bc": ("mainnet",), "tb": ("testnet", "signet"), "bcrt": ("regtest",)}
+    quick = getattr(ctx, "tier", "quick") != "thorough"
+    try:
+        for hrp, networks in nets.items():
+            for version in range(17):
+                for length in range(0, 43):
+                    for pat in (bytes((37 * i + 11) & 255 for i in range(length)), b"\xff" * length, bytes(length)):
+                        if hrp != "bc" and pat != b"\xff" * length:
+                            continue   # the human-readable part only enters the checksum
+                        if quick and (version not in (0, 1, 16) or (hrp != "bc" and length not in (0, 1, 2, 3, 20, 32, 40, 41)) or (hrp == "bc" and pat == bytes(length) and length)):
+                            continue   # the quick tier walks every length for the versions on either side of the Bech32 / Bech32m split
+                        n += 1
+                        addr = _ref_bech32(hrp, version, pat)
+                        valid = 2 <= length <= 40
+                        if bad_d is None:
+                            try:
+                                r = Evaluator(ctx.repo, max_steps=400000).call(spec_d, [addr])
+                                if not valid:
+                                    bad_d = "the %s address of a version %d program of %d bytes (outside 2..40) is accepted" % (hrp, version, length)
+                                elif not (isinstance(r, (list, tuple)) and len(r) == 3 and r[0] in networks and r[1] == version and r[2] == pat):
+                                    bad_d = "the %s address %s of a version %d program of %d bytes decodes to %r" % (hrp, addr, version, length, r)
+                            except Raised as x:
+                                if valid:
+                                    bad_d = "the valid %s address %s (witness version %d, program of %d bytes) is refused (%s): decoding does not invert encoding there" % (
+                                        hrp, addr, version, length, x.name)
+                        if bad_e is None and valid and length <= 40:
+                            spk = bytes([version + 0x50 if version else 0, length]) + pat
+                            try:
+                                e_ = Evaluator(ctx.repo, max_steps=400000).call(spec_e, [spk, networks[0]])
+                                if e_ != addr:
+                                    bad_e = "version %d program of %d bytes on %s encodes to %r, BIP173/350 gives %s" % (version, length, networks[0], e_, addr)
+                            except Raised as x:
+                                bad_e = "version %d program of %d bytes on %s: the encoder raises %s" % (version, length, networks[0], x.name)
+    except Undecided as u:
+        return [ctx.err(spec_d, "bech32 codec not evaluable: %s" % u, fn, mod)]
+    ctx.count("cells", n)
+    out.append(ctx.bad(spec_d, bad_d, fn, mod, key="bech32-cells:decode") if bad_d else
+               ctx.ok(spec_d, "%d (hrp, version, length, pattern) cells: reference addresses of 2..40-byte programs decode exactly, other lengths are refused" % n, fn, mod, key="bech32-cells:decode"))
+    out.append(ctx.bad(spec_e, bad_e, fn_e, mod_e, key="bech32-cells:encode") if bad_e else
+               ctx.ok(spec_e, "the encoder equals the BIP173/BIP350 reference on every (hrp, version, length, pattern) cell", fn_e, mod_e, key="bech32-cells:encode"))
+    return out
+
+
+def c09_15(ctx):
+    """Base58Check evaluated on directed payload cells -- the property's payload lengths 0..82 × shapes chosen at the byte-width boundaries of
+    the big-integer conversion: leading-zero runs of 0..3, first non-zero byte 0x01 / 0x80 / 0xff, 0x01 followed by a run of zero bytes (an
+    exact power of 256 after the checksum is appended is not reachable by choice, the run is), all-0xff.  encode_base58_checksum must equal
+    the rule's own encoder and raw_decode_base58 must return the payload.  Bounded evaluation: a stated set of payloads, not all of them"""
+    import hashlib
+    from sa.cells import Evaluator, Raised, Undecided
+    spec_d, spec_e = "helper:raw_decode_base58", "helper:encode_base58_checksum"
+    mod, fn = rl.get(ctx, spec_d)
+    mod_e, fn_e = rl.get(ctx, spec_e)
+
+    def ref(raw):
+        raw = raw + hashlib.sha256(hashlib.sha256(raw).digest()).digest()[:4]
+        num, out = int.from_bytes(raw, "big"), ""
+        while num:
+            num, r = divmod(num, 58)
+            out = BASE58[r] + out
+        return "1" * (len(raw) - len(raw.lstrip(b"\x00"))) + out
+    payloads = []
+    quick = getattr(ctx, "tier", "quick") != "thorough"
+    for length in ([0, 1, 2, 3, 4, 5, 8, 9, 12, 13, 16, 20, 21, 24, 25, 33, 34, 37, 78] if quick else list(range(0, 40)) + [64, 74, 78, 82]):
+        for zeros in range(0, min(4, length + 1)):
+            rest = length - zeros
+            shapes = {b"\x01" + bytes(rest - 1), b"\x80" + bytes(rest - 1), b"\xff" * rest, b"\x01" + b"\xa5" * (rest - 1), bytes((91 * i + 7) & 255 or 1 for i in range(rest))} if rest else {b""}
+            for sh in shapes:
+                payloads.append(bytes(zeros) + sh)
+    bad_d = bad_e = None
+    try:
+        for pl in payloads:
+            want = ref(pl)
+            if bad_e is None:
+                try:
+                    got = Evaluator(ctx.repo, max_steps=400000).call(spec_e, [pl])
+                    if got != want:
+                        bad_e = "payload %s encodes to %r, Base58Check gives %s" % (pl.hex() or "(empty)", got, want)
+                except Raised as x:
+                    bad_e = "payload %s: the encoder raises %s" % (pl.hex() or "(empty)", x.name)
+            if bad_d is None:
+                try:
+                    got = Evaluator(ctx.repo, max_steps=400000).call(spec_d, [want])
+                    if got != pl:
+                        bad_d = "the Base58Check string %s of payload %s decodes to %s" % (want, pl.hex() or "(empty)", got.hex() if isinstance(got, bytes) else got)
+                except Raised as x:
+                    bad_d = "the correctly checksummed string %s (payload %s) is refused (%s): decoding does not invert encoding there" % (want, pl.hex() or "(empty)", x.name)
+    except Undecided as u:
+        return [ctx.err(spec_d, "Base58Check codec not evaluable: %s" % u, fn, mod)]
+    ctx.count("cells", len(payloads))
+    return [ctx.bad(spec_d, bad_d, fn, mod, key="base58-cells:decode") if bad_d else
+            ctx.ok(spec_d, "%d directed payloads (%s × leading zeros × width-boundary shapes) decode to themselves" % (len(payloads), "19 lengths between 0 and 78" if quick else "lengths 0..39, 64, 74, 78, 82"), fn, mod, key="base58-cells:decode"),
+            ctx.bad(spec_e, bad_e, fn_e, mod_e, key="base58-cells:encode") if bad_e else
+            ctx.ok(spec_e, "the encoder equals the rule's own Base58Check on every directed payload", fn_e, mod_e, key="base58-cells:encode")]
+
+
+
 OBLIGATIONS = [
+    ("C09.15", "CELLS base58check", c09_15),
+    ("C09.14", "CELLS bech32", c09_14),
     ("C09.13", "SHARED", c09_13),
     ("C09.12", "SET-ORDER", c09_12),
     ("C09.11", "CELLS dispatch", c09_11),
